@@ -1,20 +1,5 @@
-"""C19 -- DAG traversal and mapping visit every distinct node correctly (structural clauses).
+"""C19 -- DAG traversal and mapping visit every distinct node correctly.
 
-C19-visit  corealg/traversal.py: in the `unique_*` traversals an operand is pushed only under a
-           `not in visited` test and marked visited no later than its yield; post-order variants
-           push (dep, operands-of-dep), null the dependency slot and `break`, and yield only in the
-           `for ... else` branch (all dependencies done) or at a cut-off type; each yield is followed by
-           the pop of that frame.
-C19-map    corealg/map_dag.py: operand results are read from vcache[u] for u in v.ufl_operands; the
-           value stored in vcache[v] is the (optionally compressed) handler result; cut-off handlers
-           are called without operands exactly when the traversal cut off; cache hits skip recomputation.
-C19-mro    MultiFunction / Transformer resolve a handler by walking classobject.mro() in order and stop
-           at the first hit.
-C19-key    DAGTraverser.__call__ memoises on (node, all keyword arguments) - shared MEMO-KEY rule with
-           the lossy-projection clause.
-C19-exh    T-EXH over all algorithm classes: every concrete type resolves to some handler.
-C19-mro/cache  the per-class handler table must be found under the exact algorithm class: a dict keyed by the
-           class, or the class's own namespace - not attribute lookup, which follows the MRO (shared with C20).
 C19-equiv  the traversal generators, map_expr_dags and DAGTraverser.__call__ (with its postorder decorators) are
            interpreted from source on every rooted DAG shape with <= 4 (quick) / 5 (thorough) nodes and operand counts
            0..2 - shared sub-expressions, repeated operands, diamonds - with every subset of node kinds as cut-off
@@ -22,7 +7,24 @@ C19-equiv  the traversal generators, map_expr_dags and DAGTraverser.__call__ (wi
            pre-/post-order; unique traversals every distinct node once with parent-before-child /
            children-before-parent; cut-off variants on the truncated DAG; shared `visited` sets; map_expr_dags
            = recursive application of the handlers, each distinct node handled once per call, several roots,
-           caller-supplied caches, compress on/off; DAGTraverser: one process call per distinct (node, kwargs).
+           caller-supplied caches, compress on/off; DAGTraverser: one process call per distinct (node, kwargs)
+           (sa/rules/c19_equiv.py).
+C19-mro    MultiFunction.__init__ and Transformer.__init__ interpreted from source in a model type registry (a small
+           forest shaped like the UFL hierarchy, including types with two UFL bases) on user-side algorithm classes
+           (handlers on the class, on a base class, aliased, cut-off): the handler table equals the definition - the
+           first handler, along the type's own mro(), that the algorithm object provides - for every class, in every
+           instantiation order of subclasses / siblings, with the cut-off / visit-order flags that the handler's
+           parameters imply (sa/rules/c19_dispatch.py; the same interpretation decides C20-late).
+C19-mro/cache  the per-class handler table must be found under the exact algorithm class: a dict keyed by the
+           class, or the class's own namespace - not attribute lookup, which follows the MRO (shared with C20).
+C19-key    DAGTraverser.__call__ memoises on (node, all keyword arguments) - shared MEMO-KEY rule with the
+           lossy-projection clause; every memo of the traversal machinery is owned by the algorithm object or
+           stores nothing computed from it.
+C19-exh    T-EXH over all algorithm classes: every concrete type resolves to some handler.
+
+Earlier versions decided the traversals and map_expr_dags through AST facts about their loops (C19-visit, C19-map, a
+textual C19-mro).  Those clauses named local variables and statement shapes of today's source and would have fired
+on behaviour-preserving edits; they were removed when C19-equiv and C19-mro made them redundant.
 """
 
 from __future__ import annotations
@@ -44,147 +46,9 @@ def find(fn, pred):
 def run(ctx) -> Report:
     rep = Report("C19")
     prog = ctx.prog
-    m = prog.module(TR)
-    names = ["pre_traversal", "post_traversal", "cutoff_post_traversal", "unique_pre_traversal", "unique_post_traversal", "cutoff_unique_post_traversal"]
-    for nm in names:
-        if nm not in m.functions:
-            raise AnalysisError(f"{TR}.{nm} not found (anchor vanished)")
-    for nm in names:
-        fi = m.functions[nm]
-        fn = fi.node
-        unique = "unique" in nm
-        post = "post" in nm
-        cutoff = "cutoff" in nm
-        pushes = find(fn, lambda n: isinstance(n, ast.Call) and norm(n.func) == "lifo.append")
-        yields = find(fn, lambda n: isinstance(n, ast.Yield))
-        if not pushes or not yields:
-            rep.violation("C19-visit", fi, nm, f"{nm}: no push / yield found")
-            continue
-        for p in pushes:
-            g = guard_texts(fn, p)
-            arg = p.args[0]
-            pushed = arg.elts[0] if isinstance(arg, ast.Tuple) else arg
-            pn = norm(pushed)
-            if unique:
-                if any(t.replace(" ", "") == f"{pn}notinvisited" for t in g):
-                    rep.ok("C19-visit/guard", (fi, p), f"{nm}: push of {pn} guarded by `{pn} not in visited`")
-                else:
-                    rep.violation("C19-visit/guard", (fi, p), norm(p), f"{nm}: `{pn}` is pushed without a dominating `{pn} not in visited` test (guards: {g}): shared subexpressions are visited more than once")
-            if post:
-                if isinstance(arg, ast.Tuple) and len(arg.elts) == 2 and f"{pn}.ufl_operands" in norm(arg.elts[1]):
-                    rep.ok("C19-visit/frame", (fi, p), f"{nm}: frame ({pn}, operands of {pn})")
-                else:
-                    rep.violation("C19-visit/frame", (fi, p), norm(p), f"{nm}: pushed frame is not (node, that node's operands)")
-                if any(t.replace(" ", "") == f"{pn}isnotNone" for t in g):
-                    rep.ok("C19-visit/slot", (fi, p), f"{nm}: dependency slot tested for None")
-                else:
-                    rep.violation("C19-visit/slot", (fi, p), norm(p), f"{nm}: dependency is pushed without checking that its slot has not been consumed")
-        if unique and not post:
-            # marked when pushed (pre-order)
-            adds = find(fn, lambda n: isinstance(n, ast.Call) and norm(n.func) == "visited.add")
-            if len(adds) >= 2:
-                rep.ok("C19-visit/mark", fi, f"{nm}: root and pushed operands are marked visited")
-            else:
-                rep.violation("C19-visit/mark", fi, nm, f"{nm}: visited.add occurs {len(adds)} times (root and every pushed operand must be marked)")
-        if post:
-            # nulling + break in the for body; yields only in for-else or under the cutoff test
-            fors = find(fn, lambda n: isinstance(n, ast.For))
-            inner = [f for f in fors if "enumerate(deps)" in norm(f.iter)]
-            if not inner:
-                rep.violation("C19-visit/post", fi, nm, f"{nm}: dependency loop not found")
-                continue
-            f0 = inner[0]
-            body_txt = norm(f0.body)
-            if "deps[i] = None" in body_txt and any(isinstance(n, ast.Break) for n in ast.walk(f0)):
-                rep.ok("C19-visit/post", (fi, f0), f"{nm}: consumed dependency is nulled and the loop breaks to descend")
-            else:
-                rep.violation("C19-visit/post", (fi, f0), "dependency loop", f"{nm}: the dependency loop does not null the slot and break")
-            for y in yields:
-                in_else = any(y is n or any(y is k for k in ast.walk(n)) for n in f0.orelse)
-                g = guard_texts(fn, y)
-                at_cut = any("cutofftypes[expr._ufl_typecode_]" in t and not t.startswith("not") for t in g)
-                if in_else or (cutoff and at_cut):
-                    rep.ok("C19-visit/yield", (fi, y), f"{nm}: yield only after all dependencies ({'for-else' if in_else else 'cut-off'})")
-                else:
-                    rep.violation("C19-visit/yield", (fi, y), "yield expr", f"{nm}: a node is yielded outside the for-else (dependencies may not have been yielded yet)")
-            # every yield is followed by lifo.pop() (and visited.add for unique) in the same block
-            for blk in [f0.orelse] + [st.body for st in ast.walk(fn) if isinstance(st, ast.If)]:
-                txt = [norm(s) for s in blk]
-                if "yield expr" in txt:
-                    k = txt.index("yield expr")
-                    rest = txt[k + 1 :]
-                    if "lifo.pop()" not in rest:
-                        rep.violation("C19-visit/pop", (fi, blk[k]), "yield expr", f"{nm}: frame is not popped after its node is yielded")
-                    elif unique and "visited.add(expr)" not in rest:
-                        rep.violation("C19-visit/mark", (fi, blk[k]), "yield expr", f"{nm}: node is not marked visited when yielded")
-                    else:
-                        rep.ok("C19-visit/pop", (fi, blk[k]), f"{nm}: yield; {'mark; ' if unique else ''}pop")
-    # ---------------------------------------------------------------- map_dag
-    md = prog.get_function("ufl.corealg.map_dag", "map_expr_dags")
-    fn = md.node
-    src = norm(fn)
-    calls = find(fn, lambda n: isinstance(n, ast.Call) and norm(n.func) == "handlers[v._ufl_typecode_]")
-    if len(calls) != 2:
-        rep.violation("C19-map", md, "handler calls", f"expected the cut-off and the post-order handler call, found {len(calls)}")
-    for c in calls:
-        g = guard_texts(fn, c)
-        cut = [t for t in g if "cutoff_types[v._ufl_typecode_]" in t]
-        if len(c.args) == 1:
-            if cut and not cut[0].startswith("not"):
-                rep.ok("C19-map/cutoff", (md, c), "handler called without operands exactly under cutoff_types[typecode]")
-            else:
-                rep.violation("C19-map/cutoff", (md, c), norm(c), "a handler is called without processed operands outside the cut-off branch")
-        else:
-            star = [a for a in c.args if isinstance(a, ast.Starred)]
-            ok = bool(star) and norm(star[0].value).replace(" ", "") == "(vcache[u]foruinv.ufl_operands)" and norm(c.args[0]) == "v"
-            if ok and cut and cut[0].startswith("not"):
-                rep.ok("C19-map/operands", (md, c), "post-order handler receives vcache[u] for u in v.ufl_operands, in order")
-            else:
-                rep.violation("C19-map/operands", (md, c), norm(c), "the post-order handler call does not pass the cached results of v's operands in operand order")
-    stores = find(fn, lambda n: isinstance(n, ast.Assign) and norm(n.targets[0]) == "vcache[v]")
-    if len(stores) == 1 and norm(stores[0].value) == "r":
-        rep.ok("C19-map/store", (md, stores[0]), "vcache[v] = r (after optional compression)")
-    else:
-        rep.violation("C19-map/store", md, "vcache[v] = ...", "the result cache is not filled with the handler result of v")
-    hits = find(fn, lambda n: isinstance(n, ast.If) and norm(n.test) == "v in vcache" and any(isinstance(x, ast.Continue) for x in n.body))
-    (rep.ok("C19-map/hit", (md, hits[0]), "cache hit skips recomputation") if hits else rep.violation("C19-map/hit", md, "if v in vcache: continue", "cache hits are not skipped on `v in vcache`"))
-    rets = [st for st in fn.body if isinstance(st, ast.Return)]
-    if rets and norm(rets[-1].value).replace(" ", "") == "[vcache[expression]forexpressioninexpressions]":
-        rep.ok("C19-map/return", (md, rets[-1]), "returns vcache[expression] per root")
-    else:
-        rep.violation("C19-map/return", md, "return", "map_expr_dags does not return the cached result of each root expression")
-    trav = find(fn, lambda n: isinstance(n, ast.Call) and norm(n.func) in ("cutoff_unique_post_traversal", "unique_post_traversal"))
-    shared = all("visited" in [norm(a) for a in c.args] for c in trav)
-    if len(trav) == 2 and shared:
-        rep.ok("C19-map/traversal", md, "unique post-order traversals sharing one visited set; cut-off variant gets cutoff_types")
-    else:
-        rep.violation("C19-map/traversal", md, "traversal selection", "map_expr_dags does not use the unique post-order traversals with a shared visited set")
-    cut_call = [c for c in trav if norm(c.func) == "cutoff_unique_post_traversal"]
-    if cut_call and "cutoff_types" not in [norm(a) for a in cut_call[0].args]:
-        rep.violation("C19-map/traversal", md, norm(cut_call[0]), "the cut-off traversal is not given the same cutoff_types table that selects the handler call form")
-    # compression
-    comp = find(fn, lambda n: isinstance(n, ast.If) and norm(n.test) == "compress")
-    ctxt = norm(comp[0]) if comp else ""
-    if "rcache.get(r)" in ctxt and "rcache[r] = r" in ctxt and "r = r2" in ctxt:
-        rep.ok("C19-map/compress", (md, comp[0]), "compression replaces r by an equal cached object only")
-    else:
-        rep.violation("C19-map/compress", md, "compress branch", "compression does not look r up by equality and reuse the cached equal object")
-    # ---------------------------------------------------------------- mro
-    for qual in ("ufl.corealg.multifunction.MultiFunction", "ufl.algorithms.transformer.Transformer"):
-        cls = prog.get_class(qual)
-        init = cls.methods["__init__"]
-        loops = find(init.node, lambda n: isinstance(n, ast.For) and norm(n.iter) == "classobject.mro()")
-        if not loops:
-            rep.violation("C19-mro", init, "for c in classobject.mro()", f"{cls.name}: handler resolution does not walk classobject.mro()")
-            continue
-        lp = loops[0]
-        brk = [n for n in ast.walk(lp) if isinstance(n, ast.Break)]
-        hit_ifs = [n for n in ast.walk(lp) if isinstance(n, ast.If) and any(isinstance(x, ast.Break) for x in n.body)]
-        ok = bool(brk) and hit_ifs and ("hasattr(self, handler_name)" in norm(hit_ifs[0].test) or norm(hit_ifs[0].test) == "function")
-        if ok:
-            rep.ok("C19-mro", (init, lp), f"{cls.name}: first class in mro() order that provides a handler wins (break)")
-        else:
-            rep.violation("C19-mro", (init, lp), "mro loop", f"{cls.name}: the mro loop does not stop at the first class providing a handler")
+    from .c19_dispatch import run_dispatch
+
+    run_dispatch(ctx, rep, rules=("C19-mro",))
     check_memo_keys(ctx, rep, "C19-key", ["ufl.corealg.dag_traverser"], only_functions={"DAGTraverser.__call__"})
     # every memo of the traversal machinery (drivers, decorators, transformer base classes): a memo that is not owned by
     # the algorithm object (closure variable of a decorator, module-level table) does not store what depends on the object
@@ -207,18 +71,16 @@ def run(ctx) -> Report:
                 rep.ok("C19-exh", alg, f"{alg.name}: all {len(ctx.tm.concrete())} concrete types resolve to a handler")
     if nalg < 35:
         raise AnalysisError(f"only {nalg} algorithm classes found (confirmed: 40)")
-    rep.require_min("C19-visit", 25)
-    rep.require_min("C19-map", 7)
-    rep.require_min("C19-mro", 2)
+    rep.require_min("C19-mro", 10)
     rep.require_min("C19-key", 1)
     rep.require_min("C19-exh", 35)
     rep.explanation = (
-        "Structural necessary conditions of the traversal/mapping contract, decided on the AST: visited-set discipline and "
-        "post-order yield placement in the six traversals, operand/result cache wiring and cut-off consistency in map_expr_dags, "
-        "first-hit MRO resolution, memo key completeness and injectivity in DAGTraverser.__call__, handler exhaustiveness of "
-        f"all {nalg} algorithm classes (cross-checked against the live dispatch tables)."
+        "The six traversal generators, map_expr_dags and DAGTraverser.__call__ interpreted from source on every rooted DAG shape up to the "
+        "bound and compared with their recursive definitions; handler resolution of MultiFunction / Transformer interpreted in a model type "
+        "registry and compared with first-provided-handler-along-the-type's-mro; memo ownership and key completeness of the traversal "
+        f"machinery; handler exhaustiveness of all {nalg} algorithm classes (cross-checked against the live dispatch tables)."
     )
-    rep.assumptions = ["does not decide equivalence with the recursive definition (that needs the traversals' loop invariants); the clauses are necessary conditions"]
+    rep.assumptions = ["DAG shapes up to 4 (quick) / 5 (thorough) nodes with at most two operands per node; the model type registry of sa/rules/c19_dispatch.py"]
     # the handler table must be the one of the exact algorithm class (shared rule with C20)
     from .c20 import cache_key_rule, handler_cache_sites
 
